@@ -64,10 +64,27 @@ func genC14Case(t *rapid.T) C14Case {
 	if c.Target == "txn" {
 		n = rapid.IntRange(1, 3).Draw(t, "n")
 	}
-	if c.Target == "txn" && rapid.IntRange(0, 2).Draw(t, "continue") == 0 {
+	if c.Target == "txn" && rapid.IntRange(0, 1).Draw(t, "continue") == 0 {
 		c.Continue = true
 		cfg.multiRow = false
 		n = rapid.IntRange(2, 4).Draw(t, "ncont")
+	}
+	if c.Continue && rapid.IntRange(0, 2).Draw(t, "contshape") != 0 {
+		// the shape in which a statement can fail in the middle of the tree update: a populated
+		// multi-node table and several single-row writes that move keys between nodes
+		c.Prefix.EPN = rapid.SampledFrom([]int{2, 3}).Draw(t, "contepn")
+		c.Prefix.NKeys = 16
+		fill := Stmt{Kind: "ins", Cols: []string{"a"}, T: -10}
+		for i, k := range intKeys(16) {
+			if i%3 != 2 {
+				fill.Keys = append(fill.Keys, k)
+				fill.Vals = append(fill.Vals, []Val{vInt(int64(i % 3))})
+			}
+		}
+		c.Prefix.Steps = append([]MWStep{{Op: "stmt", W: 0, Stmts: []Stmt{fill}}}, c.Prefix.Steps...)
+		cfg.keys = intKeys(16)
+		cfg.wIns, cfg.wUpd, cfg.wDel = 6, 1, 3
+		n = rapid.IntRange(3, 5).Draw(t, "ncontshape")
 	}
 	if c.Target == "write" || c.Target == "txn" {
 		for i := 0; i < n; i++ {
